@@ -397,8 +397,9 @@ const reference<cycle> *layout::graph::cycle(int pos) const
 	if (pos < 0 && (pos += _worlds.length()) < 0) {
 		return 0;
 	}
-	data *d = _worlds.get(pos)->instance();
-	if (!d) {
+	item<data> *it = _worlds.get(pos);
+	data *d;
+	if (!it || !(d = it->instance())) {
 		return 0;
 	}
 	if (!d->cycle.instance()) {
@@ -417,8 +418,9 @@ bool layout::graph::set_cycle(int pos, const reference<class cycle> &cyc) const
 	if (pos < 0 && (pos += _worlds.length()) < 0) {
 		return false;
 	}
-	data *d = _worlds.get(pos)->instance();
-	if (!d) {
+	item<data> *it = _worlds.get(pos);
+	data *d;
+	if (!it || !(d = it->instance())) {
 		return false;
 	}
 	d->cycle = cyc;
